@@ -120,6 +120,13 @@ def supported_patterns(tier):
     return out
 
 
+# patterns with a single kind of metacharacter (what a hand-written "is this a plain literal?"
+# test is most likely to get wrong), and plain literals
+LITERALISH = ["ab", "ab{2}c", "0{3}", "-{2,4}", "id=7{2}5{,2}", "a b", "a-b_c", "a.b", "a|b", "ab?", "ab*",
+              "ab+", "a[b]c", "a(b)c", "a\\.b", "a\\{2\\}", "^ab", "ab$", "a{2", "a}b", "{a}", "a{,}b", "a,b",
+              "é{2}", "a#b", "a b{2}", "x~y", "a=b&c", "a/b:c", "<a>", "\"a\"", "a'b", "a%sb", "a{0}b"]
+
+
 def unsupported_patterns():
     out = []
     for u in UNSUPPORTED:
@@ -254,6 +261,10 @@ def worker(shard, nshards, tier, seed):
         jobs.append(("fake-atom", a, 32))
     for p in uns:
         jobs.append(("fake-uns", p, 32))
+    # ... and supported patterns through fake(): those whose only metacharacters are one kind
+    # (counted repeats on bare literals, a lone class, a lone group, ...) and every 4th of the rest
+    for p in LITERALISH + sup[::4]:
+        jobs.append(("fake-sup", p, 32))
     jobs2 = [("atom2", a, 32) for a in ATOMS]
     jobs2 += [("sup2", p, 32) for p in sup if any(x in p for x in ("\\d", "\\w", "[", "."))]
     mine = [jobs[i] for i in range(shard, len(jobs), nshards)] \
@@ -273,6 +284,9 @@ def worker(shard, nshards, tier, seed):
         elif kind == "thrice":
             with e2.installed(rng):
                 found, info = run_pattern(rng, p, mr, True, dict(b, D=1, full_cap=300), acc, route="thrice")
+        elif kind == "fake-sup":
+            with e2.installed(rng):
+                found, info = run_pattern(rng, p, mr, True, dict(b, D=1), acc, route="fake")
         elif kind == "fake-uns":
             with e2.installed(rng):
                 found, info = run_pattern(rng, p, mr, False, dict(b, D=1), acc, route="fake")
